@@ -55,10 +55,21 @@ def needs_rebuild(obj, dep, stamp, flags_id):
 def compile_one(job):
     src, obj, dep, stamp, flags, flags_id = job
     os.makedirs(os.path.dirname(obj), exist_ok=True)
+    redefine = flags and flags[0] == '@redefine'
+    if redefine:
+        flags = flags[1:]
     cmd = [CC] + flags + ['-MMD', '-MF', dep, '-c', src, '-o', obj]
     r = subprocess.run(cmd, capture_output=True, text=True)
     if r.returncode != 0:
         return (src, r.stderr)
+    if redefine:
+        # route the allocator calls of this object through sim/alloc.c
+        args = []
+        for f in ('malloc', 'calloc', 'realloc', 'free', 'strdup', 'strndup'):
+            args += ['--redefine-sym', '%s=sim_repo_%s' % (f, f)]
+        r = subprocess.run(['objcopy'] + args + [obj], capture_output=True, text=True)
+        if r.returncode != 0:
+            return (src, r.stderr)
     open(stamp, 'w').write(flags_id)
     return None
 
@@ -72,11 +83,18 @@ def build_engine(name, jobs=16):
              '-I' + ROOT]
     flags = CFLAGS + e.get('cflags', []) + incs
     flags_id = hashlib.sha1(' '.join(flags).encode()).hexdigest()
-    srcs = [os.path.join(ROOT, 'sim', 'sim.c'), os.path.join(ROOT, 'sim', 'main.c')]
+    sim_srcs = [os.path.join(ROOT, 'sim', 'sim.c'), os.path.join(ROOT, 'sim', 'main.c')]
+    sim_srcs += [os.path.join(ROOT, s) for s in e.get('sim_src', [])]
+    srcs = list(sim_srcs)
     srcs += [os.path.join(ROOT, s) for s in e['src']]
     srcs += [os.path.join(REPO, s) for s in e.get('repo_src', [])]
     todo, objs = [], []
+    base_flags, base_id = flags, flags_id
     for s in srcs:
+        flags, flags_id = base_flags, base_id
+        if e.get('track_alloc') and s not in sim_srcs:
+            flags = ['@redefine'] + base_flags
+            flags_id = base_id + 'R'
         tag = hashlib.sha1(s.encode()).hexdigest()[:8]
         base = os.path.join(odir, os.path.basename(s)[:-2] + '.' + tag)
         obj, dep, stamp = base + '.o', base + '.d', base + '.flags'
